@@ -52,10 +52,10 @@ Definition s_cmp F a b : option Z :=
   if (- 2 ^ (wd F - 1) <=? d) && (d <? 2 ^ (wd F - 1)) then Some (cc (spec_cmp (wd F) a b)) else None.
 Definition m_cmpeq F a b := (m_cmp F a b / 2) mod 2.
 Definition s_cmpeq F a b := Some (b2z (fxint (wd F) a =? fxint (wd F) b)).
-(* helper.FixedPoint: the claim is agreement with the block (for >= 1 integer bit) *)
-Definition m_hadd F a b := oz (fxh_add F a b).       Definition s_hadd F a b := if fint F <? 1 then None else Some (m_add F a b).
-Definition m_hsub F a b := oz (fxh_sub F a b).       Definition s_hsub F a b := if fint F <? 1 then None else Some (m_sub F a b).
-Definition m_hmul F a b := oz (fxh_mult F a b).      Definition s_hmul F a b := if fint F <? 1 then None else Some (m_mul F F F a b).
+(* helper.FixedPoint: the claim is agreement with the block, for every format (no integer bits included, /repo 6fe767a) *)
+Definition m_hadd F a b := oz (fxh_add F a b).       Definition s_hadd F a b := Some (m_add F a b).
+Definition m_hsub F a b := oz (fxh_sub F a b).       Definition s_hsub F a b := Some (m_sub F a b).
+Definition m_hmul F a b := oz (fxh_mult F a b).      Definition s_hmul F a b := Some (m_mul F F F a b).
 '''
 
 
@@ -76,7 +76,6 @@ def oracle(block, fmts, a, b):
     """expected value, or None when the property makes no claim for this input"""
     if block in ('add', 'sub', 'hadd', 'hsub'):
         F = fmts[0]
-        if block[0] == 'h' and F[1] < 1: return None
         x, y = dec(F, a), dec(F, b)
         return encq(F, x + y if block.endswith('add') else x - y)
     if block in ('addx', 'subx'):
@@ -87,7 +86,6 @@ def oracle(block, fmts, a, b):
         return EXC
     if block in ('mul', 'hmul'):
         af, bf, rf = fmts if block == 'mul' else (fmts[0],) * 3
-        if block == 'hmul' and af[1] < 1: return None
         if af[2] + bf[2] - rf[2] < 0: return EXC
         return encq(rf, dec(af, a) * dec(bf, b))
     if block in ('cmp', 'cmpeq'):
@@ -151,7 +149,7 @@ class Impl:
                 x = FP.fromRawValue(F[0], F[1], F[2], a); y = FP.fromRawValue(F[0], F[1], F[2], b)
                 return {'hadd': x.add, 'hsub': x.sub, 'hmul': x.mult}[blk](y).v
             except ValueError:
-                return EXC                       # negative shift count in the constructor (iw = 0)
+                return EXC                       # negative shift count in the constructor (only a negative iw since /repo 6fe767a)
         self.A.put(a)
         if self.B is not None: self.B.put(b)
         try:
@@ -352,7 +350,7 @@ def sweep(ctx, sw, rng):
     # 4. wide formats: boundary x boundary + random operands, up to 64 bits
     nbig = 30 if quick else 160
     for k in range(nbig):
-        F = rand_format(rng, 7, 64) if k else (1, 31, 32)
+        F = (1, 31, 32) if k == 0 else (1, 0, 31) if k == 1 else rand_format(rng, 7, 64)      # incl. a pure-fraction format (helper: iw = 0)
         rows = big_rows(rng, width(F), width(F), 14)
         for block in ('add', 'sub', 'cmp', 'cmpeq', 'hadd', 'hsub', 'hmul'):
             sw.table(block, (F,), rows=rows)
@@ -378,7 +376,7 @@ def run(ctx):
                        'tables enumerate all operand pairs for every format of width <= 5 (same-format blocks, helper) and for mixed a/b/r multiplier '
                        'formats, plus boundary x boundary + random operands for formats up to 64 bits; distinct by construction (each (block, formats) '
                        'table is built once, its rows are distinct, sampled wide tables never overlap exhaustive ones); a case counts as non-trivial when the property makes '
-                       'a claim for it (not: comparator with unrepresentable difference, helper with 0 integer bits, the C14-F1 region is still counted) and no operand is zero')
+                       'a claim for it (not: comparator with unrepresentable difference; the C14-F1 region is still counted) and no operand is zero')
     missing = ctx.regen(NEEDED)
     r = ctx.prove(['Properties/C14.v'])
     ctx.log('proof build: ok=%s missing=%s' % (r['ok'], missing))
